@@ -36,3 +36,15 @@ def run(R):
                            "every conforming compiler/level/inlining context returns the proved value")
         R.witness("%s/reach-nan" % u.name, [a, b], [c], D, isnan_raw(c.out))
         R.witness("%s/reach-finite" % u.name, [a, b], [c], D, z3.Not(isnan_raw(c.out)))
+    # the same property decided on the code clang actually generates: the optimised IR (-O1/-O2/-O3) executed under machine
+    # semantics.  A source-level proof does not see a wrong function attribute (e.g. a [[gnu::const]] on a compound assignment lets
+    # the optimiser delete the call); the optimised IR does.
+    R.bounds.append("the exact-or-NaN obligation is repeated on clang-14's -O1, -O2 and -O3 output of every wrapper")
+    nat = [("g++", "-O0"), ("g++", "-O2"), ("g++", "-O3"), ("clang++-14", "-O0"), ("clang++-14", "-O1"), ("clang++-14", "-O2"),
+           ("clang++-14", "-O3")]
+    for u in UNITS:
+        minus = "sub" in u.name
+        for lv in ("O1", "O2", "O3"):
+            c = R.call(h, u.name, [a, b], opts=E.Opts(machine=True, track_ub=False), ir=lv)
+            R.verify("%s/exact-or-nan/clang-%s" % (u.name, lv), [a, b], [c], D, exact_goal(a, b, c.out, minus), natives=nat,
+                     note="the optimised IR of the wrapper (clang -%s) returns the exact result or NaN for all finite operands" % lv)
